@@ -19,12 +19,15 @@ ESink == {"sink_write", "from_save"}
 \* self sequences: empty, single, permutations, a superset, repeated kinds
 SelfA == {<<>>, <<1>>, <<1, 2>>, <<2, 1>>, <<1, 2, 3>>, <<3, 1, 2>>, <<1, 1>>, <<1, 1, 2>>, <<2, 3>>}
 SelfB == {<<1, 2>>, <<2, 1, 3>>, <<1, 1, 2>>, <<3>>}
-SelfC == {<<1, 2, 3>>, <<3, 2, 1>>, <<1, 3>>, <<2, 2, 1>>}
+SelfC == {<<1, 2, 3>>, <<3, 1>>, <<2, 2, 1>>}
 SelfD == {<<>>, <<2>>, <<1, 2>>, <<2, 1>>, <<1, 2, 3>>, <<3, 3>>, <<1, 3, 1>>, <<3, 2>>}
 SelfBatch == {<<4>>, <<5, 4>>, <<1, 5>>}
 SelfSink == {<<1>>, <<2, 1>>, <<1, 2, 3>>}
 SelfQ == {<<1, 2>>, <<2, 1, 3>>, <<1, 1>>}
 SelfQ2 == {<<1, 2>>, <<2, 1, 3>>}
 SelfAq == {<<>>, <<1>>, <<2, 1>>, <<1, 2, 3>>, <<1, 1>>}
+\* more than ten members: member names of two digits
+SelfMany == {<<1, 2, 1, 1, 2, 1, 1, 1, 2, 1, 1>>, <<1, 2, 1, 1, 2, 1, 1, 1, 2, 1, 1, 2, 3>>}
+FKill == {"kill"}
 SelfLive == {<<>>, <<1, 2>>, <<2, 1, 3>>, <<1, 1>>}
 =============================================================================
